@@ -368,6 +368,24 @@ CO_ERR COSdoDownloadExpedited(CO_SDO *srv)
     return (result);
 }
 
+void COSdoAbortWrite(CO_SDO *srv, CO_ERR err, uint32_t other)
+{
+    /* abort code for a write access, which is refused by the object */
+    if (srv->Abort > 0) {
+        COSdoAbort(srv, srv->Abort);
+    } else if (err == CO_ERR_OBJ_RANGE) {
+        COSdoAbort(srv, CO_SDO_ERR_RANGE);
+    } else if (err == CO_ERR_OBJ_MAP_TYPE) {
+        COSdoAbort(srv, CO_SDO_ERR_OBJ_MAP);
+    } else if (err == CO_ERR_OBJ_MAP_LEN) {
+        COSdoAbort(srv, CO_SDO_ERR_OBJ_MAP_N);
+    } else if (err == CO_ERR_OBJ_INCOMPATIBLE) {
+        COSdoAbort(srv, CO_SDO_ERR_PARA_INCOMP);
+    } else {
+        COSdoAbort(srv, other);
+    }
+}
+
 void COSdoAbort(CO_SDO *srv, uint32_t err)
 {
     CO_SET_BYTE(srv->Frm,     0x80, 0);
@@ -507,6 +525,10 @@ CO_ERR COSdoInitDownloadSegmented(CO_SDO *srv)
         srv->Seg.TBit = 0;
         srv->Seg.Num  = 0;
         srv->Seg.Dir  = CO_SDO_WR;
+        if ((cmd & 0x01) == 1) {
+            /* the client has indicated the size of the transfer */
+            srv->Seg.Dir |= CO_SDO_SIZED;
+        }
     }
     return (result);
 }
@@ -516,11 +538,12 @@ CO_ERR COSdoDownloadSegmented(CO_SDO *srv)
     CO_ERR   result = CO_ERR_NONE;
     uint32_t num;
     uint32_t len;
+    uint32_t rest;
     uint8_t  n;
     uint8_t  cmd;
     uint8_t  bid;
 
-    if ((srv->Obj == 0) || (srv->Seg.Dir != CO_SDO_WR)) {
+    if ((srv->Obj == 0) || ((srv->Seg.Dir & CO_SDO_WR) == 0)) {
         /* no segmented download is running */
         COSdoAbort(srv, CO_SDO_ERR_CMD);
         return (CO_ERR_SDO_ABORT);
@@ -532,9 +555,16 @@ CO_ERR COSdoDownloadSegmented(CO_SDO *srv)
         return (CO_ERR_SDO_ABORT);
     }
 
-    n   = ((cmd >> 1) & 0x07);
-    num = 7 - n;
-    if (num > (srv->Seg.Size - srv->Seg.Num)) {
+    n    = ((cmd >> 1) & 0x07);
+    num  = 7 - n;
+    rest = srv->Seg.Size - srv->Seg.Num;
+    if ((n == 0) && ((srv->Seg.Dir & CO_SDO_SIZED) != 0) && (rest < 7)) {
+        /* segment size is not indicated: the indicated size of the
+         * transfer defines the number of data bytes
+         */
+        num = rest;
+    }
+    if (num > rest) {
         /* more data than the object (or the indicated size) can take */
         srv->Seg.Size = 0;
         srv->Seg.Num  = 0;
@@ -542,6 +572,7 @@ CO_ERR COSdoDownloadSegmented(CO_SDO *srv)
         return (CO_ERR_SDO_ABORT);
     }
 
+    srv->Seg.Num += num;
     bid = 1;
     while (num > 0) {
         *(srv->Buf.Cur) = CO_GET_BYTE(srv->Frm, bid);
@@ -550,34 +581,41 @@ CO_ERR COSdoDownloadSegmented(CO_SDO *srv)
         bid++;
         num--;
     }
-    srv->Seg.Num += srv->Buf.Num;
 
     len = (uint32_t)srv->Buf.Num;
-    result = COObjWrBufCont(srv->Obj, srv->Node, srv->Buf.Start, len);
     if ((cmd & 0x01) == 0x01) {
+        result = COObjWrBufCont(srv->Obj, srv->Node, srv->Buf.Start, len);
         if (result != CO_ERR_NONE) {
             srv->Node->Error = CO_ERR_SDO_WRITE;
-            COSdoAbort(srv, CO_SDO_ERR_HW_ACCESS);
+            if ((srv->Seg.Size <= 4) && (srv->Seg.Num < srv->Seg.Size)) {
+                /* less data than the object entry needs */
+                COSdoAbort(srv, CO_SDO_ERR_LEN_SMALL);
+            } else {
+                COSdoAbortWrite(srv, result, CO_SDO_ERR_HW_ACCESS);
+            }
             result = CO_ERR_SDO_ABORT;
         }
         srv->Seg.Size = 0;
         srv->Seg.Num  = 0;
         srv->Obj      = 0;
-    } else {
-        if (len <= 4) {
-            result = CO_ERR_SDO_WRITE;
+        srv->Buf.Cur  = srv->Buf.Start;
+        srv->Buf.Num  = 0;
+    } else if (srv->Seg.Size > 4) {
+        /* write the received data to the object entry */
+        if (len > 0) {
+            result = COObjWrBufCont(srv->Obj, srv->Node, srv->Buf.Start, len);
         }
         if (result != CO_ERR_NONE) {
             srv->Node->Error = CO_ERR_SDO_WRITE;
-            if (result == CO_ERR_SDO_WRITE) {
-                COSdoAbort(srv, CO_SDO_ERR_GENERAL);
-            } else {
-                COSdoAbort(srv, CO_SDO_ERR_HW_ACCESS);
-            }
+            COSdoAbortWrite(srv, result, CO_SDO_ERR_HW_ACCESS);
             result = CO_ERR_SDO_ABORT;
         }
         srv->Buf.Cur  = srv->Buf.Start;
         srv->Buf.Num  = 0;
+    } else {
+        /* basic type entry: the value is written with the last segment,
+         * the received data (4 byte at maximum) stays in the buffer
+         */
     }
 
     cmd = (uint8_t)((1 << 5) | (srv->Seg.TBit << 4));
@@ -664,7 +702,7 @@ CO_ERR COSdoEndDownloadBlock(CO_SDO *srv)
         }
         if (result != CO_ERR_NONE) {
             srv->Node->Error = CO_ERR_SDO_WRITE;
-            COSdoAbort(srv, CO_SDO_ERR_TOS);
+            COSdoAbortWrite(srv, result, CO_SDO_ERR_TOS);
             result = CO_ERR_SDO_ABORT;
         } else {
             CO_SET_BYTE(srv->Frm, 0xA1, 0);
